@@ -10,45 +10,7 @@ import PydraModel.Hash.Model
 -/
 namespace PydraModel.Hash
 
-section Pure
-variable {α : Type} (ltb : α → α → Bool)
-
-def runAscB : α → List α → Nat
-  | _, [] => 0
-  | prev, x :: rest => if ltb x prev then 0 else runAscB x rest + 1
-
-def runDescB : α → List α → Nat
-  | _, [] => 0
-  | prev, x :: rest => if ltb x prev then runDescB x rest + 1 else 0
-
-def countRunB : List α → Nat × Bool
-  | [] => (0, false)
-  | [_] => (1, false)
-  | a :: b :: rest => if ltb b a then (runDescB ltb b rest + 2, true) else (runAscB ltb b rest + 2, false)
-
-def bposB (pivot : α) : Nat → List α → Nat
-  | 0, _ => 0
-  | fuel + 1, seg =>
-    match seg.drop (seg.length / 2) with
-    | [] => 0
-    | x :: right =>
-      if ltb pivot x then bposB pivot fuel (seg.take (seg.length / 2))
-      else seg.length / 2 + 1 + bposB pivot fuel right
-
-def binsertB (sorted : List α) (pivot : α) : List α :=
-  sorted.take (bposB ltb pivot sorted.length sorted) ++ pivot :: sorted.drop (bposB ltb pivot sorted.length sorted)
-
-def binarySortB (sorted : List α) : List α → List α
-  | [] => sorted
-  | x :: rest => binarySortB (binsertB ltb sorted x) rest
-
-def pySortedB (xs : List α) : List α :=
-  if xs.length < 2 then xs else
-    let nd := countRunB ltb xs
-    let run := if nd.2 then (xs.take nd.1).reverse else xs.take nd.1
-    binarySortB ltb run (xs.drop nd.1)
-
-end Pure
+-- (`pySortedB` and its parts are defined in `Model.lean`: the set serializer sorts digests with it)
 
 /-! ### the monadic algorithm equals the pure one when every comparison among members succeeds -/
 
